@@ -5,6 +5,7 @@ import (
 	"math"
 	"reflect"
 	"strings"
+	"time"
 
 	"verifsim/tape"
 )
@@ -365,6 +366,13 @@ func (g *Values) String() string {
 	}
 }
 
+var (
+	timeType = reflect.TypeOf(time.Time{})
+	zoneEast = time.FixedZone("", 9*3600)
+	zoneWest = time.FixedZone("", -(7*3600 + 1800))
+	zoneOdd  = time.FixedZone("", 3600+60)
+)
+
 func (g *Values) float() float64 {
 	t := g.T
 	switch t.Pick(3, 3, 2) {
@@ -486,6 +494,17 @@ func (g *Values) Fill(v reflect.Value) {
 		g.Fill(p.Elem())
 		v.Set(p)
 	case reflect.Struct:
+		if v.Type() == timeType {
+			// a few instants, each spelled in several zones
+			inst := []time.Time{
+				time.Date(2021, 3, 4, 5, 6, 7, 0, time.UTC),
+				time.Date(2021, 3, 4, 5, 6, 7, 123456789, time.UTC),
+				time.Date(1999, 12, 31, 23, 59, 59, 999999999, time.UTC),
+			}[t.Intn(3)]
+			zone := []*time.Location{time.UTC, zoneEast, zoneWest, zoneOdd}[t.Intn(4)]
+			v.Set(reflect.ValueOf(inst.In(zone)))
+			return
+		}
 		for i := 0; i < v.NumField(); i++ {
 			if v.Type().Field(i).PkgPath != "" {
 				continue
